@@ -92,10 +92,19 @@ def judge(ck, rec, res, hdr):
     if res.get("error"):
         kind, msg = res["error"]
         code = (re.search(r"E\d{4}", msg) or [None])[0]
+        if rec.kind == "union" and (kind == "run-error" or code in ("E0133", "E0054", "E0080")):
+            # bit-fields of a union: the allocation unit is sized by the last field, not the widest (debug assertion in set / a failing
+            # size assertion), and a union that is not a Rust union gets accessors calling unsafe fns / casting u8 to bool
+            ck.violation("C03-union-bitfields", "bit-field accessors of a union do not build or abort: the allocation unit does not cover the widest field, or the union-wrapper accessors do not compile (%s)" % msg[:100],
+                         dict(data, error=msg[:600]))
+            return
         ck.violation("C03-e2e-%s:%s:%s" % (kind, code or "other", grp), "the bindings of a record with bit-fields do not build (%s)" % msg[:140], dict(data, error=msg[:600]))
         return
     mm = res.get("mismatch", {}).get(rec.name, [])
     seen_cls = set()
+    # a unit at the wrong byte offset shows in the stored bytes of setters (the C bytes, moved); getters of the same record then read
+    # the wrong bytes as a consequence
+    unit_shift = any(k == "set" and shifted(dt) for (_, k, _, dt) in mm)
     for m in mm:
         # m = (field, kind, value, detail)
         field, kind, v, detail = m
@@ -106,9 +115,9 @@ def judge(ck, rec, res, hdr):
         elif kind == "get" and SIGNED[base] and w == WIDTH[base]:
             cls = "C03-getter:%s" % grp
             what = "getter disagrees with C"
-        elif kind == "set" and shifted(detail):
+        elif (kind == "set" and shifted(detail)) or (unit_shift and rec.kind != "union"):
             cls = "C03-unit-offset:%s" % grp
-            what = "the allocation unit holding this bit-field sits at a different byte offset than in C (the stored bits are right, %d byte(s) away)" % shifted(detail)
+            what = "the allocation unit holding this bit-field sits at a different byte offset than in C (the stored bits are right, %d byte(s) away; getters of the record read the wrong bytes)" % shifted(detail)
         else:
             cls = "C03-%s:%s" % ("setter" if kind == "set" else "getter", grp)
             what = "%s disagrees with C" % ("stored bytes after the setter" if kind == "set" else "value read by the getter")
